@@ -594,18 +594,19 @@ func C13(x *Ctx) []Violation {
 				}
 				for _, a := range pr.alts {
 					fa := ExportedModel(a)
-					digits := fa[len(strings.TrimRight(fa, "0123456789")):]
-					if digits == "" {
-						continue
-					}
-					for k := range preds {
-						if k == j {
-							continue
-						}
-						for _, b := range preds[k].alts {
-							// b is in a colliding group and b+digits would get our field
-							if b != "" && fieldCount[ExportedModel(b)] > 1 && ExportedModel(b+digits) == fa {
-								collision = true
+					allDigits := fa[len(strings.TrimRight(fa, "0123456789")):]
+					// every split of the trailing digits (float642 = float64 + 2 as well as float + 642)
+					for n := 1; n <= len(allDigits); n++ {
+						digits := allDigits[len(allDigits)-n:]
+						for k := range preds {
+							if k == j {
+								continue
+							}
+							for _, b := range preds[k].alts {
+								// b is in a colliding group and b+digits would get our field
+								if b != "" && fieldCount[ExportedModel(b)] > 1 && ExportedModel(b+digits) == fa {
+									collision = true
+								}
 							}
 						}
 					}
